@@ -1,17 +1,29 @@
-use vf_world::srv::*;
-use vf_world::*;
 use kanidmd_lib::prelude::*;
+use kanidmd_lib::value::PartialValue;
+use vf_world::ops::{self, Op, Ref};
+use vf_world::srv::*;
 fn main() {
     let rt = runtime();
     rt.block_on(async {
-        let qs = new_qs().await;
-        let mut w = qs.write(ct(1)).await.unwrap();
-        w.internal_create(vec![pop::person(pop::person_uuid(0), "p0"), pop::group(pop::group_uuid(0), "g0", &[pop::person_uuid(0)])]).unwrap();
-        w.commit().unwrap();
-        let mut r = qs.read().await.unwrap();
-        let d = dump::dump_all(&mut r).unwrap();
-        println!("{} entries", d.len());
-        println!("{}", serde_json::to_string_pretty(&d[&pop::person_uuid(0)]).unwrap());
-        println!("{}", serde_json::to_string_pretty(&d[&pop::group_uuid(0)]).unwrap());
+        let mut node = ops::Node::new().await;
+        for op in [
+            Op::CreateGroup { i: 0, name: 0, members: vec![] },
+            Op::CreateGroup { i: 1, name: 1, members: vec![] },
+            Op::EnablePosix { t: Ref::G(0), gid: Some(0) },
+            Op::EnablePosix { t: Ref::G(1), gid: Some(2) },
+        ] {
+            println!("{:?} -> {:?}", op, ops::apply(&mut node, &op).await);
+        }
+        let mut r = node.qs.read().await.unwrap();
+        for (n, f) in [
+            ("gt 70001", f_gt(Attribute::GidNumber, PartialValue::Uint32(70001))),
+            ("lt 80000", f_lt(Attribute::GidNumber, PartialValue::Uint32(80000))),
+            ("pres", f_pres(Attribute::GidNumber)),
+            ("pres and not lt 80000", f_and(vec![f_pres(Attribute::GidNumber), f_andnot(f_lt(Attribute::GidNumber, PartialValue::Uint32(80000)))])),
+            ("class=group and not name=*nna", f_and(vec![f_eq(Attribute::Class, PartialValue::new_iutf8("group")), f_andnot(f_sub(Attribute::Name, PartialValue::new_iname("nna x")))])),
+        ] {
+            let res = r.internal_search(Filter::new_ignore_hidden(f)).map(|v| v.iter().map(|e| e.get_ava_single_uint32(Attribute::GidNumber)).collect::<Vec<_>>());
+            println!("{n}: {:?}", res.map(|v| v.len()));
+        }
     });
 }
